@@ -736,6 +736,46 @@ int rename(const char *a, const char *b) {
     errno = e;
     return r;
 }
+int renameat(int d1, const char *a, int d2, const char *b) {
+    REAL(renameat);
+    char ab1[8192], ab2[8192];
+    const char *p1 = abspath(d1, a, ab1, sizeof(ab1));
+    const char *p2 = abspath(d2, b, ab2, sizeof(ab2));
+    if (!relevant(p1) && !relevant(p2)) return real_renameat(d1, a, d2, b);
+    long s;
+    int ka;
+    int inj = gate('M', "rename", p1, &s, &ka);
+    if (inj) {
+        logcall(s, 'M', "rename", p1, p2, -1, inj, "INJECTED");
+        errno = inj;
+        return -1;
+    }
+    int r = real_renameat(d1, a, d2, b);
+    int e = errno;
+    after(ka, s, 'M', "rename", p1, p2, r, e);
+    errno = e;
+    return r;
+}
+int renameat2(int d1, const char *a, int d2, const char *b, unsigned int flags) {
+    REAL(renameat2);
+    char ab1[8192], ab2[8192];
+    const char *p1 = abspath(d1, a, ab1, sizeof(ab1));
+    const char *p2 = abspath(d2, b, ab2, sizeof(ab2));
+    if (!relevant(p1) && !relevant(p2)) return real_renameat2(d1, a, d2, b, flags);
+    long s;
+    int ka;
+    int inj = gate('M', "rename", p1, &s, &ka);
+    if (inj) {
+        logcall(s, 'M', "rename", p1, p2, -1, inj, "INJECTED");
+        errno = inj;
+        return -1;
+    }
+    int r = real_renameat2(d1, a, d2, b, flags);
+    int e = errno;
+    after(ka, s, 'M', "rename", p1, p2, r, e);
+    errno = e;
+    return r;
+}
 int linkat(int d1, const char *a, int d2, const char *b, int flags) {
     REAL(linkat);
     char ab1[8192], ab2[8192];
